@@ -1,5 +1,6 @@
 // C03 - every map implementation is the same finite dictionary.
 #include "../../engine/rcglue.hpp"
+#include "tracker.hpp"
 #include "../../engine/latrack.hpp"
 #include <map>
 
@@ -68,6 +69,7 @@ struct Interp {
     }
     void run(const Case &c) {
         ht_install();
+        tracker_begin(ctx);
         VT_CHECK(ctx, LA(c03_init()) == 1, "mismatch", "new; a map constructor returned NULL");
         for (int k = 0; k < 3; k++) VT_CHECK(ctx, LA(c03_type_ok(k)), "mismatch", "type:" << kCls[k] << "; type() does not identify the class");
         verify("after construction");
@@ -79,7 +81,8 @@ struct Interp {
         }
         ctx.step((int)c.size());
         VT_CHECK(ctx, LA(c03_teardown()) == 1, "mismatch", "del; del returned FALSE");
-        if (!ht_overflowed() && ht_live_count() != 0) {
+        if (tracker_final(ctx)) {
+        } else if (!ht_overflowed() && ht_live_count() != 0) {
             char buf[256];
             ht_describe(buf, sizeof buf);
             ctx.fail("leak", "heap-not-balanced; " + std::to_string(ht_live_count()) + " block(s), " + std::to_string(ht_live_bytes()) + " bytes live after deleting all maps: " + buf);
